@@ -26,6 +26,9 @@ def make(kind):
     if kind == 'Image2D:visual_only': return Image2D((2, 3), visual_only=True)
     if kind == 'Discrete': return Discrete(['a', 'b', 'c'])
     if kind == 'Mapped': return MappedGeometry(Continuous1D(3), map=lambda v: 2 * v + 1, imap=lambda f: (f - 1) / 2)
+    if kind == 'Mapped:KL':
+        # inner geometry whose fun2par is linear but not affine-equivariant: the order  inner.fun2par(imap(f))  matters
+        return MappedGeometry(KLExpansion(np.linspace(0, 1, 6), num_modes=3), map=lambda v: 2 * v + 1, imap=lambda f: (f - 1) / 2)
     if kind == 'Mapped:Image2D': return MappedGeometry(Image2D((2, 2)), map=lambda v: 3 * v, imap=lambda f: f / 3)
     if kind.startswith('Step'):
         _, proj, N, ns = kind.split(':')
@@ -51,7 +54,7 @@ class _Approx:
 def roundtrip(c, kind, k):
     """k = 0: single vector; k >= 1: batch of k columns"""
     g = make(kind)
-    if kind.startswith('KL') and c.sym:
+    if 'KL' in kind and c.sym:
         _eq = c.eq; c = _Approx(c)          # decay coefficients are floats: identities up to coefficient tolerance
     n = g.par_dim
     if k == 0:
@@ -126,6 +129,27 @@ def step_partition_enumeration(c, maxN, maxsteps):
                 if sorted(allidx.tolist()) != list(range(N)): bad.append((N, ns, a, b))
     c.holds('grids_enumerated', count > 100, note=str(count))
     c.holds('index_sets_partition_the_grid', not bad, note=f"{len(bad)} failing (N, n_steps, a, b), first: {bad[:4]}")
+
+
+def step_membership_enumeration(c, maxN, maxsteps):
+    """closed enumeration on grids whose node coordinates are exactly representable (x0 + h*k with dyadic x0, h; far from the origin,
+    tiny spacings, negative offsets): every node receives the parameter of the documented step interval (exact rational membership)"""
+    bad = []; count = 0
+    fams = ((0.0, 1.0), (250000.0, 1.0), (1.7e9, 60.0), (-4e5, 0.5), (1.0, 2.0 ** -20), (0.0, 2.0 ** -30), (-7.0, 0.25), (3.0e6, 2.0 ** -3))
+    for (x0, h) in fams:
+        for N in range(2, maxN + 1):
+            grid = x0 + h * np.arange(N)
+            for ns in range(1, min(maxsteps, N) + 1):
+                try: g = StepExpansion(grid, n_steps=ns)
+                except ValueError: continue
+                count += 1
+                f = np.asarray(g.par2fun(np.arange(1, ns + 1, dtype=float)))
+                for j in range(N):
+                    owners = [i for i in range(ns) if (Fraction(i * (N - 1), ns) < j or (i == 0 and j == 0)) and j <= Fraction((i + 1) * (N - 1), ns)]
+                    if len(owners) != 1 or f[j] != owners[0] + 1:
+                        bad.append((x0, h, N, ns, j, float(f[j]), owners)); break
+    c.holds('grids_enumerated', count > 500, note=str(count))
+    c.holds('every_node_receives_the_parameter_of_its_documented_step', not bad, note=f"{len(bad)} failing (x0, h, N, n_steps, node, got, owner), first: {bad[:3]}")
 
 
 def grid_history(c, kind):
@@ -213,8 +237,9 @@ def jobs(tier):
         J.append(Job(f'{kind}:grid_history', lambda c, kind=kind: grid_history(c, kind), 'Pbox', fn['KL'], rtol=1e-6, atol=1e-9, timeout=900))
     for N, ns in ((4, 2), (5, 2), (7, 3), (6, 6)) + (() if q else ((9, 4), (10, 3), (12, 5))):
         J.append(Job(f'StepExpansion:node_assignment:N={N}:steps={ns}', lambda c, N=N, ns=ns: step_assignment(c, N, ns), 'Pbox', fn['Step']))
+    J.append(Job('StepExpansion:membership:closed_enumeration_on_representable_grids', lambda c: step_membership_enumeration(c, 16 if q else 30, 6 if q else 8), 'B', fn['Step'], nnum=1))
     J.append(Job('StepExpansion:partition:closed_enumeration', lambda c: step_partition_enumeration(c, 24 if q else 40, 8), 'B', fn['Step'], nnum=1))
-    for kind in ('KL:6:3', 'KL:8:8') + (() if q else ('KL:16:5',)):
+    for kind in ('KL:6:3', 'KL:8:8', 'Mapped:KL') + (() if q else ('KL:16:5',)):
         for k in (0, 2):
             J.append(Job(f'{kind}:roundtrip_and_columnwise:batch={k}', lambda c, kind=kind, k=k: roundtrip(c, kind, k), 'Pbox', fn['KL'], rtol=1e-6, atol=1e-9, timeout=900))
     return J
